@@ -247,7 +247,11 @@ class CommandLineJob(Job):
             # Get from pidpath file
             from experimaestro.connectors import Process
 
-            pinfo = json.loads(self.pidpath.read_text())
+            try:
+                pinfo = json.loads(self.pidpath.read_text())
+            except (json.JSONDecodeError, OSError):
+                # Empty or partial file (the scheduler died while writing it)
+                return None
             p = Process.fromDefinition(self.launcher.connector, pinfo)
             if p is None:
                 return None
